@@ -406,7 +406,10 @@ def _gen_methods(cx, pkg, main, svc, noun, res, enums, msgs):
             # a required scalar that is neither in path nor body (C04's required-default rule)
             if rng.random() < 0.4:
                 t = rng.choice(["int32", "bool", "string", "double", "int64", "uint32"])
-                fields.append({"name": _fresh_name(rng, used), "number": 12, "type": t, "required": True})
+                pool = [n for n in ["type", "max", "format", "license"] if n not in used] if rng.random() < 0.3 else None
+                nm = rng.choice(pool) if pool else _fresh_name(rng, used)
+                used.add(nm)
+                fields.append({"name": nm, "number": 12, "type": t, "required": True})
             _msg(main, f"{mname}Request", fields)
             out = rng.choice([P + "." + noun, P + "." + noun, ".google.protobuf.Empty", f"{P}.{mname}Response"])
             if cx.chance("p_local_empty"):
@@ -447,14 +450,21 @@ def _gen_methods(cx, pkg, main, svc, noun, res, enums, msgs):
             if f["type"] == "message" or f.get("map"):
                 continue
             fields.append(f)
-        if rng.random() < 0.5:
-            fields.append({"name": _fresh_name(rng, used), "number": 11, "type": rng.choice(["int32", "bool", "string", "int64", "double"]),
+        extra = None
+        if rng.random() < 0.6:
+            pool = [n for n in (["type", "max", "format", "license"] if rng.random() < 0.4 else FIELD_NAMES) if n not in used]
+            extra = rng.choice(pool)
+            used.add(extra)
+            fields.append({"name": extra, "number": 11, "type": rng.choice(["int32", "bool", "string", "int64", "double", "string"]),
                            "required": True})
         _msg(main, f"Fetch{noun}Request", fields)
         m = {"name": f"Fetch{noun}", "input": f"{P}.Fetch{noun}Request", "output": P + "." + noun,
              "http": {"verb": "get", "path": f"{pre}/{{parent={pwild}}}/{coll}/{{{idf}}}"}}
         if rng.random() < 0.3:
             m["http"]["path"] += ":fetch"
+        if extra and fields[-1]["type"] == "string" and cx.chance("p_additional_binding"):
+            # an ADDITIONAL binding that binds a required scalar in its path which the primary one leaves to the query
+            m["http"]["additional"] = [{"verb": "get", "path": f"{pre}/{{parent={pwild}}}/{coll}/{{{idf}}}/variants/{{{extra}}}"}]
         if cx.chance("p_signature"):
             m["signatures"] = [f"parent,{idf}"]
         svc["methods"].append(m)
@@ -833,6 +843,24 @@ def gen_mixin_yaml(cx, spec, host, need_ops):
                             ab2["body"] = r["body"]
                         r["additional_bindings"].append(ab2)
                 y["http"]["rules"].append(r)
+    # naming coincidence: the API defines its OWN rpc with the short name of an un-ruled mixin method, and the
+    # YAML carries an http rule for that own method (legal: YAML rules may override any selector)
+    if rng.random() < 0.3:
+        listed = {a["name"] for a in y["apis"]}
+        ruled = {r["selector"] for r in y["http"]["rules"]}
+        cands = [(api, n) for api, rules in MIXIN_RULES.items() if api in listed and api != "google.iam.v1.IAMPolicy"
+                 for n in rules if f"{api}.{n}" not in ruled]
+        svcs = [(fs, s) for fs in spec["files"] for s in fs.get("services", ())]
+        if cands and svcs:
+            api, n = rng.choice(cands)
+            fs, s = svcs[0]
+            if all(m["name"] != n for m in s["methods"]) and not any(mm["name"] == f"{n}Request" for mm in fs["messages"]):
+                P = "." + fs["package"]
+                fs["messages"].append({"name": f"{n}Request", "fields": [{"name": "name", "number": 1, "type": "string"}]})
+                out = next(("." + f2["package"] + "." + mm["name"] for f2 in spec["files"] for mm in f2["messages"] if mm.get("resource")), None)
+                s["methods"].append({"name": n, "input": f"{P}.{n}Request", "output": out,
+                                     "http": {"verb": "get", "path": "/v1/{name=own/*}"}, "own_mixin_name": True})
+                y["http"]["rules"].append({"selector": f"{fs['package']}.{s['name']}.{n}", "get": "/v1/{name=own/*}:viaYaml"})
     rng.shuffle(y["http"]["rules"])
     if not y["apis"]:
         del y["apis"]
